@@ -91,11 +91,20 @@ def nodesFromIdx (g : Graph) (node : String) (idx : List Int) : D (List String) 
   -- f"{node}_{'_'.join(...)}": an empty index list yields a trailing underscore
   (checkNode g (node ++ "_" ++ String.intercalate "_" (idx.map toString))).map fun nm => [nm]
 
+/-- `all(i.isdigit() for i in s.split("_"))` on the characters of `s`; `ne`: the segment read so far is not empty -/
+def digitSegs : List Char → Bool → Bool
+  | [], ne => ne
+  | c :: cs, ne => if c == '_' then ne && digitSegs cs false else c.isDigit && digitSegs cs true
+
+/-- a node of the tree `node`: the name itself, or the name followed by `_<digits>` segments -/
+def inTree (node name : String) : Bool :=
+  name == node ||
+    ((node ++ "_").toList.isPrefixOf name.toList && digitSegs (name.toList.drop (node ++ "_").toList.length) false)
+
 def nodesFromLvl (g : Graph) (node : String) (lvl : Int) : D (List String) :=
-  -- two chained filters: prefix, then `nodes[n]["lvl"] == lvl` (KeyError if a candidate has no level)
-  let cands := g.nodes.filter (·.name.startsWith node)
-  if cands.any (·.lvl.isNone) then throw (.selector "KeyError: 'lvl'")
-  else pure ((cands.filter fun n => n.lvl.map (fun (l : Nat) => (l : Int)) == some lvl).map (·.name))
+  -- two chained filters: a node of the tree, then `nodes[n].get("lvl") == lvl`
+  pure (((g.nodes.filter fun n => inTree node n.name).filter
+    fun n => n.lvl.map (fun (l : Nat) => (l : Int)) == some lvl).map (·.name))
 
 /-! ### constructors -/
 
